@@ -99,9 +99,16 @@ def gen(prop, stream, tier, avoid):
         elif k == "read":
             ops.append({"op": "read", "obj": o})
         elif k == "reject":
-            ops.append({"op": "reject", "obj": o, "via": rng.pick(["method", "operations"]), "dir": rng.randrange(nd),
-                        "at": ["knot", rng.randrange(8)] if rng.chance(0.6) else ["new", rng.randint(1, 127)],
-                        "excess": rng.pick([1, 1, 2])})
+            if nd > 1 and rng.chance(0.4):
+                # one call, several directions: at least one admissible, one exceeding its multiplicity (any position)
+                ops.append({"op": "reject_multi", "obj": o, "via": rng.pick(["method", "operations"]),
+                            "bad_dir": rng.randrange(nd), "excess": rng.pick([1, 1, 2]),
+                            "dirs": {str(d): {"at": ["knot", rng.randrange(8)] if rng.chance(0.4) else ["new", rng.randint(1, 127)],
+                                              "num": rng.pick([1, 1, 2])} for d in range(nd)}})
+            else:
+                ops.append({"op": "reject", "obj": o, "via": rng.pick(["method", "operations"]), "dir": rng.randrange(nd),
+                            "at": ["knot", rng.randrange(8)] if rng.chance(0.6) else ["new", rng.randint(1, 127)],
+                            "excess": rng.pick([1, 1, 2])})
         elif k == "remove":
             ndirs = 1 if rng.chance(0.75) else rng.randint(1, nd)
             dirs = {}
@@ -464,6 +471,64 @@ def run(script, ctx):
                         what, why, before["definition"], after["definition"]), **sig)
                 if lv.evalpts_read:
                     ctx.probe("reject_after_cache_warm")
+            _touch_others(world, lv, None)
+            continue
+
+        if k == "reject_multi":
+            if prop != "C04":
+                ctx.ops_skipped += 1
+                continue
+            params = [None] * lv.nd
+            nums = [0] * lv.nd
+            plan = {}
+            bad = op["bad_dir"] % lv.nd
+            for ds, spec in sorted(op["dirs"].items()):
+                d = int(ds)
+                if d >= lv.nd:
+                    continue
+                u, _ = _resolve_at(lv, d, spec["at"])
+                s_ = lv.mult(d, u)
+                room = lv.degrees[d] - s_
+                if d == bad:
+                    r = room + op["excess"]
+                elif room <= 0:
+                    continue
+                else:
+                    r = max(1, min(spec["num"], room))
+                params[d], nums[d] = u, r
+                plan[d] = (u, r)
+            if len(plan) < 2:
+                ctx.ops_skipped += 1
+                continue
+            what = "partially inadmissible insert_knot(%s) params=%r nums=%r (direction %d exceeds its multiplicity)" % (op["via"], params, nums, bad)
+            try:
+                _call_insert(lv, op["via"], params, nums)
+            except Exception as e:   # the call is (partly) rejected: nothing is asserted about how
+                ctx.log("reject_multi_raised", type(e).__name__)
+            ctx.fault("partially_rejected_insert")
+            ctx.ops_executed += 1
+            # whichever directions were carried out, the object must still be a consistent description of the ORIGINAL shape:
+            # per direction the knot vector is either the old one or the old one plus the requested copies, sizes follow
+            try:
+                dfn = shapes.definition(lv.obj)
+            except Exception as e:
+                ctx.fail("definition_broken", "after a %s the public definition is unreadable: %r" % (what, e), **sig)
+            for d in range(lv.nd):
+                old = lv.knots[d]
+                new = sorted(old + [plan[d][0]] * plan[d][1]) if d in plan else old
+                got = dfn["knots"][d]
+                if close(got, old, 1e-12, 1.0)[0] and dfn["sizes"][d] == lv.sizes[d]:
+                    continue
+                if d in plan and d != bad and close(got, new, 1e-12, 1.0)[0] and dfn["sizes"][d] == lv.sizes[d] + plan[d][1]:
+                    lv.knots[d] = new
+                    lv.sizes[d] += plan[d][1]
+                    lv.pending.setdefault((d, plan[d][0]), False)
+                    continue
+                ctx.fail("definition_broken", "after a %s direction %d has %d control points with knot vector %r (before the call: %d points, %r)" % (
+                    what, d, dfn["sizes"][d], got, lv.sizes[d], old), **sig)
+            ctx.log("reject_multi", op["obj"], params, nums, lv.sizes)
+            _check_function(ctx, lv, what, prop, sig, h64(base_seed, idx))
+            _check_evalpts(ctx, lv, what, sig)
             _touch_others(world, lv, None)
             continue
 
